@@ -6,13 +6,13 @@ import json
 import os
 import shutil
 
-from common import CACHE, TLA, Machinery, run_tlc, tlc_errors
+from common import CACHE, TLA, TLA_LIB, Machinery, run_tlc, tlc_errors
 
 
 def _hash_sources(mods, extra=""):
     h = hashlib.sha256()
     for m in sorted(mods):
-        with open(os.path.join(TLA, m + ".tla"), "rb") as fh:
+        with open(os.path.join(TLA_LIB[0], m + ".tla"), "rb") as fh:
             h.update(fh.read())
     h.update(extra.encode())
     return h.hexdigest()[:16]
